@@ -147,7 +147,7 @@ std::unique_ptr<mp::BasicBackend> CreateLeanBackend();
 // the scripted callback registrations (script.registrations) due at solve iteration at_iter (-1: when the interrupter is handed over)
 void do_registrations(mp::Interrupter* inter, int at_iter);
 // "session" registration pattern: the solver session (handle) in use; a driver may open a new one while options are parsed
-extern int g_session;
+extern int g_session, g_session_regs;
 
 // C15 callbacks (registered through the real SetHandler path)
 bool cbA(void* data);
